@@ -109,7 +109,7 @@ CLAIMED['C13'] = dict(
          'below the header text; HeadersBase::parse (loop rule on the real loop, callee contracts) reads only inside the text '
          '(Parser::operator[] precondition), stores only (offset,length) pairs inside the text, terminates (variant: free index slots) '
          'and returns 0/-1; BodyReadStream::read delivers first the buffered bytes then the stream, never more than '
-         'min(request, Content-Length remaining) and keeps the remaining-length accounting exact.  A native run checks on the real '
+         'min(request, Content-Length remaining) and keeps the remaining-length accounting exact; Message::body_size (loop-free, header index as a stub) takes the body length from Content-Length whenever that header is present (0 included, whatever the connection options), else from Content-Range, else close-delimited only for a closing non-chunked message; HeadersBase::parse stores for every header a value that starts on the line of its name (only SP / HTAB after the colon), using skip_chars / skip_spaces contracts that state which bytes may be skipped.  A native run checks on the real '
          'Headers parser that the parse of a text never depends on bytes outside it, and a second native campaign (frag) parses the same '
          'response bytes with the real Response class under every two-way split and random multi-way splits (content-length, chunked, '
          'keep-alive back-to-back): status, headers, body, end-of-body and the position of the next message must not depend on the split.',
